@@ -24,6 +24,7 @@ type Shape struct {
 	RefOfRef   bool   // a referrer of the first referrer
 	DigestTags int    // sha256-<hex>.suffix style tags pointing to extra images
 	Foreign    bool   // a foreign layer with URLs not hosted by the source
+	ForeignURL string `json:"-"` // base URL of a host that really serves foreign layers (default: an unreachable address)
 	MaxBlob    int
 }
 
@@ -101,7 +102,11 @@ func Random(rng *rand.Rand, alg string, s Shape, topTag string) *Graph {
 		}
 		if s.Foreign && i == 0 {
 			fl := g.Blob("layer", la.MTD2Foreign, 40)
-			fl.URLs = []string{"http://127.0.0.1:1/foreign/" + fl.Digest}
+			base := "http://127.0.0.1:1/foreign"
+			if s.ForeignURL != "" {
+				base = s.ForeignURL
+			}
+			fl.URLs = []string{base + "/" + fl.Digest}
 			fl.External = true
 			ls = append(ls, fl)
 		}
